@@ -350,6 +350,10 @@ theorem step_shape {okf : Nat} {s s' : State} {a : Action} (h : step okf s a = s
     split at h
     · cases h
     · injection h with h; subst h; exact .mem (by simp [SameEpr])
+  | rejected sub =>
+    simp only [step] at h
+    obtain ⟨app, m, _, _, hf⟩ := withApp_some h
+    injection hf with hf; subst hf; exact .mem (by simp [SameEpr])
 
 /-- reachable states -/
 inductive Reach (okf : Nat) (node : Int) : State → Prop
